@@ -73,6 +73,34 @@ pub fn run_child(spec: &Spec) -> ChildResult {
         }
     }
     match out.status.code() {
+        Some(c) if c == crate::memlimit::OOM_EXIT => {
+            // the simulated deployment's memory limit killed the pooler (see memlimit.rs)
+            let (req, live, site) = text
+                .lines()
+                .rev()
+                .find_map(|l| l.strip_prefix("OOM ").map(|r| r.to_string()))
+                .map(|r| {
+                    let mut it = r.split_whitespace();
+                    let a = it.next().and_then(|x| x.parse::<u64>().ok()).unwrap_or(0);
+                    let b = it.next().and_then(|x| x.parse::<u64>().ok()).unwrap_or(0);
+                    (a, b, it.next().unwrap_or("unknown").to_string())
+                })
+                .unwrap_or((0, 0, "unknown".into()));
+            let limit = spec.params.get("mem_limit_mb").and_then(|v| v.as_u64()).unwrap_or(0);
+            let mut v = Verdict::default();
+            v.violations.push(crate::spec::Violation {
+                property: spec.property.clone(),
+                oracle: "memory_limit".into(),
+                fingerprint: format!("{}/pooler_killed_by_memory_limit/{}", spec.property, site),
+                seq: 0,
+                msg: format!("{} asked for {} bytes in one allocation with {} bytes live; the deployment's memory limit is {} MiB: the process is killed and every client loses its connection", site, req, live, limit),
+            });
+            v.digest = format!("oom-{:x}", req);
+            v.signature = v.digest.clone();
+            v.summary = "pooler killed by memory limit".into();
+            v.probes.insert("memory_limit_kill".into(), 1);
+            ChildResult::Verdict(Box::new(v))
+        }
         Some(78) => ChildResult::ConfigRejected,
         Some(c) => ChildResult::HarnessError(format!("child exited with code {} and no verdict", c)),
         None => ChildResult::HarnessError(format!("child killed by signal ({:?}) and no verdict", out.status)),
@@ -145,6 +173,7 @@ pub fn required_probes(property: &str) -> Vec<&'static str> {
         "C18" => vec!["c18_sample_at_barrier", "c18_final_sample", "c18_totals_compared", "c18_monotone_compared"],
         "C09" => vec!["c09_md5_challenge_seen", "c09_valid_login", "c09_attack_wrong", "c09_attack_replay", "c09_attack_truncated", "c09_attack_hash_empty", "c09_attack_othermsg", "c09_attack_unknown_user", "c09_attack_admin_wrong", "c09_attack_old_password_after_change", "c09_valid_login_admitted", "c09_login_during_shutdown", "c09_attack_late_correct"],
         "C10" => vec!["c10_cancel_at_backend", "c10_cancel_hit_own_statement", "c10_running_statement_cancelled", "c10_unknown_key_sent", "c10_idle_target_no_contact", "c10_departed_target_no_contact"],
+        "C11" => vec!["c11_canary_step_checked", "c11_stage_startup", "c11_stage_password", "c11_stage_post_auth", "c11_stage_in_txn", "c11_stage_in_copy", "c11_stage_admin", "c11_stage_after_parse", "relay_compared_steps", "c11_payload_len_negative", "c11_payload_unknown_type", "c11_payload_b_param_len_beyond", "c11_payload_random_bytes"],
         "C16" => vec!["c16_pause_interval", "c16_txn_sent_while_paused", "c16_client_held_then_released", "yield:pool.wait_paused.between"],
         "C08" => vec!["c08_execute_checked", "c08_execute_on_reused_connection", "c08_eviction_close_sent", "c08_reference_compared_steps"],
         _ => vec![],
@@ -422,6 +451,7 @@ fn rule_of(property: &str) -> String {
         "C18" => "holders (inside a transaction), workers, never-used and failed-login clients, clients kicked at the checkout failure limit; clean and abrupt exits, also while holding a server; a barrier at which everybody is parked and the admin reads SHOW CLIENTS/SERVERS/POOLS/LISTS/STATS, and a second reading after everybody left",
         "C09" => "honest clients (MD5 cleartext secret, auth_query secret, trust user, admin) next to attackers: wrong password, replay of a response captured from an honest client of the same run, truncated and oversized responses, a Query in place of the password, EOF and silence in the handshake, the empty-secret answer, unknown user/database, another user's password, admin database with wrong or application credentials; every attacker keeps sending tagged queries afterwards; auth_query runs also change the secret on the servers mid-run and boot with the lookup role unable to log in; a quarter of the runs raise SIGINT while a transaction is open and send logins with valid and invalid credentials afterwards",
         "C10" => "2-5 runners with sleeping statements (simple and extended, bare and inside transactions), idle periods and departures inside a transaction over pools of 1-2 connections per server with 0-2 replicas, both pool modes; 1-3 cancellers sending CancelRequests with the target's key while its statement runs, 0-3 ms and 150-600 ms after its transaction ended, after it left, and with a wrong secret, wrong pid or random key; a late victim with long statements on the reused connections; yield sites after claim and before release",
+        "C11" => "1-2 canaries and an admin canary next to 1-5 attackers sharing a pool of 1-2 connections (both modes, statement cache on/off, query parser on/off); hostile bytes before the startup packet (15 classes), in place of the password, after authentication idle / inside a transaction / inside COPY IN / after a Parse / on the admin console (42 payload classes: inconsistent, negative and huge declared lengths, unknown and backend-only types, malformed Parse/Bind/Describe/Close/Execute/Query bodies, valid messages in invalid order, half frames, PRNG bytes); every other run includes lengths that ask for 2 GiB under a simulated 1 GiB memory limit; final probes after the attackers are gone",
         "C16" => "PAUSE/RESUME cycles (global or per pool) by an admin client; workers running throughout, clients that are idle when the pause begins, clients arriving after the PAUSE acknowledgement, mid-transaction clients; both pool modes; random subset of the yield sites inside wait_paused and between wait_paused and checkout; RESUME at PRNG times including right after a held client's message went out",
         "C12" => "2-5 clients sharing 1-2 server connections; startup parameter sets and SET sequences of tracked and untracked parameters; every fourth run uses hostile values (quotes, backslashes, non-ASCII, empty)",
         _ => "see DESIGN.md",
